@@ -47,6 +47,7 @@ class DulGate:
         self.timeouts = 0
         self.max_wait = 15.0
         self.installed = False
+        self.passes = {}        # thread ident -> deque of the times its last iterations began (left the gate line)
 
     def install(self):
         if self.installed or not self.resolved:
@@ -63,9 +64,14 @@ class DulGate:
     def _cb(self, code, line):
         if line != self.line:
             return _mon.DISABLE
-        if not self.armed:
-            return None
         ident = threading.get_ident()
+        dq = self.passes.get(ident)
+        if dq is None:
+            import collections
+            dq = self.passes[ident] = collections.deque(maxlen=512)
+        if not self.armed:
+            dq.append(time.time())
+            return None
         with self.cv:
             self.iterations[ident] = self.iterations.get(ident, 0) + 1
             if not self.armed:
@@ -82,6 +88,7 @@ class DulGate:
             if self.credits.get(ident, 0) > 0:
                 self.credits[ident] -= 1
             self.parked[ident] = False
+        dq.append(time.time())
         return None
 
     # ---- explorer API
